@@ -3,9 +3,9 @@ CONSTANTS
   Denoms = {"eth"}
   Mods <- ModsAcceptAll
   MaxTx = 1
-  Fuel = 2
+  Fuel = 3
   Level = 2
-  Genesis <- Genesis0
+  Genesis <- GenesisRoute
   CallMenu <- RouteCalls
   BehMenu <- RouteMenu
 VIEW view
